@@ -214,3 +214,58 @@ func (s *retScenario) cuts() *Cuts {
 func cmpInts(op token.Token, a, b int64) (bool, bool) {
 	return constant.Compare(constant.MakeInt64(a), op, constant.MakeInt64(b)), op == token.EQL || op == token.NEQ || op == token.LSS || op == token.LEQ || op == token.GTR || op == token.GEQ
 }
+
+// originOfParam: like origin, for a value inside a function of the region relative to one of the
+// function's own parameters: (0, field path) when v is (a field of) that parameter.
+func (s *retScenario) originOfParam(v ssa.Value, p *ssa.Parameter) (int, []int, bool) {
+	var path []int
+	for i := 0; i < 12; i++ {
+		v = stripNum(stripConv(v))
+		if v == ssa.Value(p) {
+			return 0, path, true
+		}
+		if s.reg != nil {
+			if r := stripNum(stripConv(s.reg.Resolve(v))); r != v {
+				v = r
+				continue
+			}
+		}
+		switch x := v.(type) {
+		case *ssa.Field:
+			path = append([]int{x.Field}, path...)
+			v = x.X
+		case *ssa.UnOp:
+			if x.Op != token.MUL {
+				return 0, nil, false
+			}
+			switch a := x.X.(type) {
+			case *ssa.FieldAddr:
+				path = append([]int{a.Field}, path...)
+				base := stripConv(a.X)
+				if s.reg != nil {
+					base = stripConv(s.reg.Resolve(base))
+				}
+				if al, ok := base.(*ssa.Alloc); ok {
+					cv := cellValue(al)
+					if cv == nil {
+						return 0, nil, false
+					}
+					v = cv
+				} else {
+					return 0, nil, false
+				}
+			case *ssa.Alloc:
+				cv := cellValue(a)
+				if cv == nil {
+					return 0, nil, false
+				}
+				v = cv
+			default:
+				return 0, nil, false
+			}
+		default:
+			return 0, nil, false
+		}
+	}
+	return 0, nil, false
+}
